@@ -131,7 +131,22 @@ InitSubsample ==
                        [all |-> FALSE, pos |-> HeadTailSample(n, h, t, smp[4]),
                         head |-> h, tail |-> t, sample |-> smp[2], rs |-> smp[3]])
 
+---------------------------------------------------------------------------
+(* drop slice: drop_invalid_rows on a SeriesSchema (C11) *)
+DropIdx(n) == { [i \in 1..n |-> iv(i - 1)], [i \in 1..n |-> iv(10 * (n + 1 - i))] }
+InitDrop ==
+  \E n \in 0..MaxLen : \E cs \in [1..n -> {fv(2), fv(-2), fv(4), NA}] : \E ix \in DropIdx(n) :
+  \E d \in {"float64", "int64"} : \E nl \in BOOLEAN :
+  \E u \in ({<<FALSE, "exclude_first">>} \cup { <<TRUE, r>> : r \in Reports }) :
+  \E ks \in { <<>>, <<Chk("gt", <<iv(0)>>)>>, <<Chk("gt", <<iv(0)>>), [Chk("le", <<iv(1)>>) EXCEPT !.ina = FALSE]>> } :
+  \E lz \in BOOLEAN :
+     st = Start([BaseSchema EXCEPT !.dtype = d, !.nullable = nl, !.unique = u[1], !.report = u[2],
+                                   !.checks = ks, !.drop = TRUE],
+                [name |-> NA, pd |-> "float64", cells |-> cs, idx |-> ix, idxpd |-> "int64", idxname |-> NA],
+                lz, FALSE, {})
+
 Init == CASE SliceName = "plain" -> InitPlain
+          [] SliceName = "drop" -> InitDrop
           [] SliceName = "parse" -> InitParse
           [] SliceName = "subsample" -> InitSubsample
 Spec == Init /\ [][Next]_st
@@ -151,9 +166,10 @@ ASSUME PrintT(ToJson([kind |-> "header", strtable |-> StrTable, retable |-> ReTa
 (* what a run predicts, as a record the harness can compare *)
 Predict(s) == [kind |-> s.out.kind,
                returned |-> IF s.out.kind = "ok" THEN s.out.returned ELSE [none |-> TRUE],
-               errors |-> IF s.out.kind = "ok" THEN <<>> ELSE s.out.errors,
+               errors |-> IF s.out.kind \in {"SchemaError", "SchemaErrors"} THEN s.out.errors ELSE <<>>,
                input_after |-> s.inp]
-ShippedDevs == {"IndexFailureCasesByPosition", "IndexCoercionReportedTwice"}
+ShippedDevs == {"IndexFailureCasesByPosition", "IndexCoercionReportedTwice", "DuplicateNullsNotReported",
+                "DropRowsIndexesScalarFailure"}
 AsShipped(s) == Run(StartSel(s.S, s.inp0, s.lazy, s.inplace, ShippedDevs, s.sel))
 
 (* vector emission *)
@@ -161,7 +177,10 @@ EmitPlain ==
   (st.pc = "done" /\ st.lazy) =>
      PrintT(ToJson([kind |-> "series", schema |-> st.S, data |-> st.inp0,
                     expect |-> [sat |-> SeriesSat(st.S, st.inp0),
-                                errors |-> AllErrors(st),
+                                errors |-> Labelled(FieldErrorsIdeal(st.S, st.inp0), st.inp0.idx),
+                                errors_asis |-> Labelled(FieldErrors(st.S, st.inp0), st.inp0.idx),
+                                devs |-> IF FieldErrorsIdeal(st.S, st.inp0) # FieldErrors(st.S, st.inp0)
+                                         THEN {"DuplicateNullsNotReported"} ELSE {},
                                 warnings |-> FieldWarnings(st.S, st.inp0)]]))
 EmitParse ==
   st.pc = "done" =>
@@ -180,6 +199,6 @@ EmitSubsample ==
                        expect |-> Predict(st), asis |-> Predict(shipped),
                        devs |-> IF Predict(shipped) # Predict(st) THEN {"SubsampleDedupByLabel"} ELSE {}]))
 Emit == CASE SliceName = "plain" -> EmitPlain
-          [] SliceName = "parse" -> EmitParse
+          [] SliceName \in {"parse", "drop"} -> EmitParse
           [] SliceName = "subsample" -> EmitSubsample
 =============================================================================
